@@ -452,12 +452,9 @@ theorem takeTournament_ne (vars : Vars) : takeTournament vars ≠ .crash := by
   simp only
   split <;> simp
 
-theorem buildResponse_ne (packets : List Bytes) : buildResponse packets ≠ .crash := by
-  unfold buildResponse
-  refine bind_ne_crash (okOr_ne _ _) fun first => bind_ne_crash (dataToMap_ne _) fun x => ?_
-  obtain ⟨vars, remaining⟩ := x
-  refine bind_ne_crash (parsePlayersAndTeams_ne _) fun x => ?_
-  obtain ⟨players, teams⟩ := x
+theorem buildFields_ne (vars : Vars) (players : List Player) (teams : List Team) :
+    buildFields vars players teams ≠ .crash := by
+  unfold buildFields
   refine bind_ne_crash (takeReq_ne _ _) fun x => ?_
   obtain ⟨maxText, vars⟩ := x
   refine bind_ne_crash (parseU_ne _ _) fun _ => bind_ne_crash (takeMin_ne _) fun x => ?_
@@ -477,6 +474,14 @@ theorem buildResponse_ne (packets : List Bytes) : buildResponse packets ≠ .cra
   refine bind_ne_crash (takeTournament_ne _) fun x => ?_
   obtain ⟨tr, vars⟩ := x
   simp
+
+theorem buildResponse_ne (packets : List Bytes) : buildResponse packets ≠ .crash := by
+  unfold buildResponse
+  refine bind_ne_crash (okOr_ne _ _) fun first => bind_ne_crash (dataToMap_ne _) fun x => ?_
+  obtain ⟨vars, remaining⟩ := x
+  refine bind_ne_crash (parsePlayersAndTeams_ne _) fun x => ?_
+  obtain ⟨players, teams⟩ := x
+  exact buildFields_ne _ _ _
 
 theorem buildVars_ne (packets : List Bytes) : buildVars packets ≠ .crash := by
   unfold buildVars
